@@ -218,48 +218,53 @@ class Ref(NamedTuple):
     why: str
 
 
-def ref_zstd(data: bytes, limit: int = 1 << 28) -> Ref:
-    """RFC 8878 stream = one or more complete frames, nothing else."""
+def ref_zstd(data: bytes, piece: int = 64) -> Ref:
+    """RFC 8878 stream = one or more complete frames, nothing else.  Input is fed in small pieces so that the
+    decoded prefix of a broken stream is known."""
     import zstandard as zs
 
     out = bytearray()
-    rest = data
     frames = 0
-    if not rest:
+    if not data:
         return Ref(False, b"", 0, "empty")
-    while rest:
+    pos = 0
+    while pos < len(data):
         d = zs.ZstdDecompressor().decompressobj()
-        try:
-            out += d.decompress(rest)
-        except zs.ZstdError as e:
-            return Ref(False, bytes(out), frames, "error: " + str(e)[:80])
-        if not d.eof:
-            return Ref(False, bytes(out), frames, "truncated")
+        while not d.eof:
+            if pos >= len(data):
+                return Ref(False, bytes(out), frames, "truncated")
+            chunk = data[pos : pos + piece]
+            pos += len(chunk)
+            try:
+                out += d.decompress(chunk)
+            except zs.ZstdError as e:
+                return Ref(False, bytes(out), frames, "error: " + str(e)[:80])
         frames += 1
-        rest = d.unused_data
-        if len(out) > limit:
-            return Ref(False, bytes(out), frames, "ref-limit")
+        pos -= len(d.unused_data)
     return Ref(True, bytes(out), frames, "")
 
 
-def ref_gzip(data: bytes) -> Ref:
-    """RFC 1952 file = one or more complete members (CRC and ISIZE verified), nothing else."""
+def ref_gzip(data: bytes, piece: int = 64) -> Ref:
+    """RFC 1952 file = one or more complete members (CRC and ISIZE verified), nothing else.  Input is fed in
+    small pieces so that the decoded prefix of a broken stream is known."""
     out = bytearray()
-    rest = data
     members = 0
-    if not rest:
+    if not data:
         return Ref(False, b"", 0, "empty")
-    while rest:
+    pos = 0
+    while pos < len(data):
         d = zlib.decompressobj(31)
-        try:
-            out += d.decompress(rest)
-            out += d.flush()
-        except zlib.error as e:
-            return Ref(False, bytes(out), members, "error: " + str(e)[:80])
-        if not d.eof:
-            return Ref(False, bytes(out), members, "truncated")
+        while not d.eof:
+            if pos >= len(data):
+                return Ref(False, bytes(out), members, "truncated")
+            chunk = data[pos : pos + piece]
+            pos += len(chunk)
+            try:
+                out += d.decompress(chunk)
+            except zlib.error as e:
+                return Ref(False, bytes(out), members, "error: " + str(e)[:80])
         members += 1
-        rest = d.unused_data
+        pos -= len(d.unused_data)
     return Ref(True, bytes(out), members, "")
 
 
@@ -344,3 +349,67 @@ def gzip_member(data: bytes, level: int = 6, extra: int = 0, name: bool = False,
 
 def stdlib_gzip(data: bytes, level: int = 6) -> bytes:
     return _gzip.compress(data, compresslevel=level, mtime=0)
+
+
+# ------------------------------------------------------------------------------------------------
+# termination watchdog: a deterministic step budget on the decoder loops + a wall-clock backstop
+
+
+class NeverTerminates(BaseException):
+    """Raised *inside* the code under test when it exceeds its step budget (BaseException on purpose: the
+    middleware turns every ``Exception`` from the decoder into a 400)."""
+
+
+_TOOL = 4
+_budget = {"left": 0, "armed": False, "installed": False}
+
+
+def _on_line(code: Any, line: int) -> Any:
+    if _budget["armed"]:
+        _budget["left"] -= 1
+        if _budget["left"] < 0:
+            _budget["armed"] = False
+            raise NeverTerminates(f"{code.co_name} exceeded its step budget at line {line}")
+    return None
+
+
+def install_step_budget() -> bool:
+    """Count executed source lines of the repo's decoder functions (``sys.monitoring`` local LINE events)."""
+    if _budget["installed"]:
+        return True
+    import sys
+
+    try:
+        from vgi_rpc import _codec
+
+        codes = [getattr(_codec, n).__code__ for n in ("_decompress_body_gzip", "_decompress_body_zstd", "decompress")]
+        mon = sys.monitoring
+        mon.use_tool_id(_TOOL, "vf-c17-step-budget")
+        mon.register_callback(_TOOL, mon.events.LINE, _on_line)
+        for c in codes:
+            mon.set_local_events(_TOOL, c, mon.events.LINE)
+    except Exception:  # noqa: BLE001 - fall back to the wall-clock backstop only
+        return False
+    _budget["installed"] = True
+    return True
+
+
+@contextlib.contextmanager
+def step_budget(lines: int = 20_000, backstop_s: int = 120) -> Iterator[None]:
+    """Run the body with at most *lines* decoder source lines (deterministic) and a SIGALRM backstop."""
+    import signal
+
+    def on_alarm(signum: int, frame: Any) -> None:
+        raise NeverTerminates(f"no answer within the {backstop_s}s wall-clock backstop")
+
+    install_step_budget()
+    old = signal.signal(signal.SIGALRM, on_alarm)
+    signal.alarm(backstop_s)
+    _budget["left"] = lines
+    _budget["armed"] = True
+    try:
+        yield
+    finally:
+        _budget["armed"] = False
+        signal.alarm(0)
+        signal.signal(signal.SIGALRM, old)
